@@ -70,7 +70,7 @@ def call_text(recv, name, args, block):
         # operator method: binary form for one argument, explicit send form otherwise
         if name in ("[]", "[]="):
             return "%s[%s]%s" % (recv, a, block) if name == "[]" else "%s[%s] = 0" % (recv, a or "0")
-        if len(args) == 1 and not block:
+        if len(args) == 1 and not block and not args[0].startswith(("&", "*")) and ": " not in args[0]:
             return "%s %s %s" % (recv, name, args[0])
         return "%s.%s(%s)%s" % (recv, name, a, block)
     return "%s.%s(%s)%s" % (recv, name, a, block)
